@@ -36,9 +36,15 @@ case $PROP in
     if ! go build $MODFLAG -overlay "$D/ov/overlay.json" -tags verif -o "$D/engine" ./cmd/vsched > "$D/build.log" 2>&1; then
       cat "$D/build.log"; echo "ERROR: cannot build the instrumented engine (see above)"; exit 2
     fi
+    # the scale half: the native engine (uninstrumented library), run as a sub-run
+    "$D/instr" -repo "$REPO" -out "$D/ovn" || exit 2
+    if go build $MODFLAG -overlay "$D/ovn/overlay.json" -tags verif -o "$D/scale" ./cmd/mc > "$D/build.log" 2>&1; then
+      export VERIF_SCALE_BIN="$D/scale"
+    else
+      cat "$D/build.log"; echo "ERROR: cannot build the native engine (see above)"; exit 2
+    fi
     if [ "$ID" != replay ] && { [ "$PROP" = C05 ] || [ "$PROP" = C06 ]; }; then
       # companions: the uninstrumented library, free-running (conformance) and under -race
-      "$D/instr" -repo "$REPO" -out "$D/ovn" || exit 2
       if go build $MODFLAG -overlay "$D/ovn/overlay.json" -tags verif -o "$D/native" ./cmd/e1native > "$D/build.log" 2>&1; then
         export VERIF_NATIVE_BIN="$D/native"
       else
